@@ -316,18 +316,18 @@ class AsynchronousDeferredRunTest(_DeferredRunTest):
         while self.case._cleanups:
             f, args, kwargs = self.case._cleanups.pop()
             d = defer.maybeDeferred(f, *args, **kwargs)
-            try:
-                yield d
-            except GeneratorExit:
-                # Not a cleanup's doing: this generator is being discarded
-                # (the run timed out or was interrupted while we waited).
-                raise
-            except BaseException:
+            # Turn a failure into a plain value, so that nothing a cleanup
+            # raises (GeneratorExit included) is ever thrown into this
+            # generator; a GeneratorExit seen here can then only mean that
+            # the generator itself is being discarded.
+            d.addCallbacks(lambda ignored: None, lambda failure: [failure])
+            failed = yield d
+            if failed:
                 # As RunTest does: every exception counts (not only the last
                 # one), exception handlers see it, MultipleExceptions is
                 # unpacked, and KeyboardInterrupt & co neither stop the
                 # remaining cleanups nor get lost.
-                self._got_user_exception(sys.exc_info())
+                self._got_user_failure(failed[0])
                 failing = True
         return failing
 
